@@ -100,6 +100,8 @@ inductive Ev where
   | sn (s : CStr) (r : Option CStr)
   /-- unit style: `inc_lexically_normal (base, name)` gave `normal`; `inc_open` would try `tries` -/
   | inc (base name normal : CStr) (tries : List CStr)
+  /-- unit style: `set_inc_list (list)` stored these entries (`none` = slot dropped) -/
+  | il (list : CStr) (entries : List (Option CStr))
   /-- system style: object `who` calls a file efun (or a compile is started: `efun = "load"`) -/
   | call (efun : String) (who : String) (args : List CStr)
   /-- the master was asked `valid_write` (`w`) / `valid_read` and answered `v` -/
@@ -150,6 +152,8 @@ def childOf (a p : CStr) : Bool :=
     * `stat` / `opendir` (`get_dir`): a trailing "/" or "/." removed; `opendir` also of its directory when the last
       component is a pattern;
     * `open` / `rename-to` / `symlink-to` (`cp`, `rename`, `link` INTO a directory): a direct child that is not "..";
+    * `stat-entry` (a `stat` issued while the directory stream of `get_dir (path, -1)` is open): a direct child,
+      not "..", of the listed directory (the approved path or, for a pattern, its directory part);
     * `fopen` / `rename` / `unlink` (`save_object`): the temporary file `%.250s.tmp`.
     So e.g. `rm (file)` may not unlink the parent directory or a child of an approved directory. -/
 def covers (fn : String) (a p : CStr) : Bool :=
@@ -158,6 +162,7 @@ def covers (fn : String) (a p : CStr) : Bool :=
   ((fn == "stat" || fn == "opendir") && p == listDir a) ||
   (fn == "opendir" && p == parentDir (listDir a)) ||
   ((fn == "open" || fn == "rename-to" || fn == "symlink-to") && childOf a p) ||
+  (fn == "stat-entry" && (childOf (listDir a) p || childOf (parentDir (listDir a)) p)) ||
   ((fn == "fopen" || fn == "rename" || fn == "unlink") && p == a.take 250 ++ str ".tmp")
 
 /-- operation name each efun has to present to the master -/
@@ -166,14 +171,15 @@ def opNames : List (String × List String) := [
   ("mkdir", ["mkdir"]), ("rmdir", ["rmdir"]), ("file_size", ["file_size"]), ("file_length", ["file_size"]),
   ("tail", ["tail"]), ("read_bytes", ["read_bytes"]), ("read_buffer", ["read_bytes"]),
   ("write_bytes", ["write_bytes"]), ("write_buffer", ["write_bytes"]), ("stat", ["stat"]),
-  ("get_dir", ["stat"]), ("rename", ["rename", "file_size"]), ("link", ["rename", "file_size"]),
+  ("get_dir", ["stat"]), ("get_dir1", ["stat"]), ("stat1", ["stat"]), ("rename", ["rename", "file_size"]), ("link", ["rename", "file_size"]),
   ("cp", ["cp"]), ("save_object", ["save_object"]), ("restore_object", ["restore_object"]),
   ("dumpallobj", ["dumpallobj"]), ("dump_prog", ["dumpallobj"]), ("ed", ["ed_start"])]
 
 
 /-- efuns whose file access is NOT mediated by valid_read/valid_write (compiler: load_object, #include,
-    inherit): only confinement is required of them -/
-def compileCalls : List String := ["load", "include", "inherit"]
+    inherit; "binary": a load with SaveBinaryDir configured and `#pragma save_binary`, where the harness prints
+    only the libc calls on unsafe paths): only confinement is required of them -/
+def compileCalls : List String := ["load", "include", "inherit", "binary"]
 
 structure Approval where
   w : Bool
@@ -211,6 +217,11 @@ def approvalOf (w : Bool) (v : Verdict) (path : CStr) : Option Approval :=
 def okBy (fn : String) (w : Bool) (p : CStr) (a : Approval) : Bool :=
   specLegal a.path && covers fn a.path p && (if w then a.w else (!a.w || fn == "stat"))
 
+/-- a stored include directory that is empty, absolute or has a ".." component -/
+def badIncEntry : Option CStr → Bool
+  | some d => !safe d || d = []
+  | none => false
+
 def judgeStep (s : JState) (e : Ev) : JState :=
   match e with
   | .lp p v =>
@@ -230,6 +241,10 @@ def judgeStep (s : JState) (e : Ev) : JState :=
   | .inc base name _ tries =>
     match tries.find? (fun t => !safe t) with
     | some t => if safe base then s.flag "include-escapes" s!"base={showP base} name={showP name} opens {showP t}" else s
+    | none => s
+  | .il list entries =>
+    match entries.find? badIncEntry with
+    | some e => s.flag "incdir-unsafe" s!"{showP list} stores {showO e}"
     | none => s
   | .call f who _ => { s with efun := f, who := who, approvals := [] }
   | .valid w path who op v =>
